@@ -3,7 +3,7 @@
 # property (one file at a time) in a scratch copy and reports checks that raise an alarm (false alarms by construction)
 set -u
 ID=$1; shift
-TRS="${*:-pre preret swap invert incdec cmpnorm rename}"
+TRS="${*:-pre preret swap invert incdec cmpnorm rename elseret andsplit retvar}"
 S=${BENIGN_DIR:-/tmp/benignrepo}; O=$S-verif
 mkdir -p $O; cp /verif/known_findings.json /verif/properties.jsonl $O/
 export GOFLAGS=-mod=mod GOPROXY=off; unset GOWORK
